@@ -600,6 +600,35 @@ func c13SharedOptions(c *rep.Ctx) {
 	}
 }
 
+// c13EdgedNames: a tree whose names begin or end with blanks (legal names, legal directory names): operations that
+// validate names (dry run, verify, mkdir; simple and massive) leave the tree as it is - every later observation and
+// every later Add still sees the names as they were given.
+func c13EdgedNames(c *rep.Ctx) {
+	hist := []hop{{K: "N", T: 0, Name: "r"}, {K: "A", T: 0, Node: 0, Name: " a"}, {K: "A", T: 0, Node: 1, Name: "b "}, {K: "A", T: 0, Node: 0, Name: "b "}, {K: "A", T: 0, Node: 0, Name: "\tc"}}
+	for _, first := range []string{"D", "V", "K", "PK", "PD", "X", "G"} {
+		for _, then := range []string{"T", "J", "W", "Y", "F", "K", "P"} {
+			if !c.Take() || c.Expired() {
+				continue
+			}
+			c.StateN(1)
+			c.Inc("edged_name_histories")
+			w := &c13World{}
+			for _, h := range hist {
+				w.apply(h)
+			}
+			pan := guardMaybeMassive(true, func() { w.apply(hop{K: first, T: 0}) })
+			// adding the same names again returns the existing children (no look-alike duplicates)
+			w.apply(hop{K: "A", T: 0, Node: 0, Name: " a"})
+			w.apply(hop{K: "A", T: 0, Node: 0, Name: "b "})
+			got, want, p2 := w.observe(then, 0)
+			c.Eval()
+			if pan != "" || p2 != "" || got != want {
+				c.Violation("C13|names-changed-by-an-earlier-operation|"+then, fmt.Sprintf("tree r(\" a\"(\"b \"), \"b \", \"\\tc\"): %s, re-Add of two names, then %s:\n got: %s %s%s\nwant: %s", first, then, got, pan, p2, want), 1, nil)
+			}
+		}
+	}
+}
+
 // c13Nested: from inside a walk (callback, or the body of a range loop) the caller uses the same tree, or another one,
 // for a further operation: that operation gives what the tree predicts, and everything returns.
 func c13Nested(c *rep.Ctx) {
@@ -794,6 +823,7 @@ func init() {
 		c13Repeat(c)
 		c13SharedOptions(c)
 		c13Nested(c)
+		c13EdgedNames(c)
 		c.R.Nontrivial = c.R.States
 		if c13Jail != nil {
 			c13Jail.Remove()
